@@ -180,6 +180,20 @@ func (c *Ctx) genSquareCase(maxChoices []int) sqCase {
 		}
 		sc.txs = append(pre, sc.txs...)
 	}
+	if c.rng.Chance(1, 10) && len(sc.txs) >= 2 {
+		// a byte-identical copy of an ordinary transaction later in the list (lookups by content confuse them)
+		var ord []int
+		for i, t := range sc.txs {
+			if !t.isBlob && len(t.raw) > 0 {
+				ord = append(ord, i)
+			}
+		}
+		if len(ord) > 0 {
+			src := sc.txs[ord[c.rng.Intn(len(ord))]]
+			sc.txs = append(sc.txs, genTx{raw: append([]byte(nil), src.raw...)})
+			d = append(d, fmt.Sprintf("t%d(duplicate)", len(src.raw)))
+		}
+	}
 	if c.rng.Chance(1, 50) && k > 0 && !sc.txs[0].isBlob {
 		sc.txs[0].raw = nil // empty ordinary tx: outside C02/C09's quantifier
 		if sc.class == "" {
@@ -661,8 +675,35 @@ func streamBuilder(c *Ctx) {
 	}
 	c.manyBlobCases()
 	c.hugeTxCases()
+	c.hugeBlobCases()
 	if c.thorough {
 		c.exhaustiveSmallScope()
+	}
+}
+
+// hugeBlobCases: the largest configurations - maxSquareSize 256, one blob just below / just above 128*128
+// shares (subtree widths above 128), with and without an ordinary transaction in front. Go-side oracles only
+// in the quick tier (8 MB through the line protocol is thorough-tier work).
+func (c *Ctx) hugeBlobCases() {
+	ns := c.userNamespaces(1)[0]
+	sizes := []int{478 + 482*16384 - 300} // 16385 shares: subtree width 256 at threshold 64
+	if c.thorough {
+		sizes = append(sizes, 478+482*16383, 478+482*16384+1)
+	}
+	for vi, n := range sizes {
+		spec := c.randBlob(ns, n, vi%2 == 1)
+		raw := c.makeBlobTx([]blobSpec{spec}, 10)
+		btx, _, _ := tx.UnmarshalBlobTx(raw)
+		sc := sqCase{max: 256, thr: 64}
+		if vi == 0 {
+			sc.txs = append(sc.txs, genTx{raw: c.normalTx(300)})
+		}
+		sc.txs = append(sc.txs, genTx{raw: raw, isBlob: true, inner: btx.Tx, blobs: []blobSpec{spec}})
+		sc.desc = fmt.Sprintf("max=256 thr=64 b[v%d:%d]", spec.ver, n)
+		c.goOnly = !c.thorough
+		c.squareCase(sc)
+		c.goOnly = false
+		c.dist("huge-blob")
 	}
 }
 
